@@ -95,7 +95,8 @@ Proof.
     + rewrite plan_weight_app. cbn [plan_weight]. destruct (0 <? nparams)%N; [|reflexivity].
       rewrite plan_weight_app, plan_weight_map_write by reflexivity. destruct (deprecate_eof s); reflexivity.
     + pose proof (sw_put_le (next_stmt s) (mk_stmt None 0) (stmts s)). cbn [w1 st_cursor] in H. lia.
-  - (* CExecute *) destruct (find_stmt id (stmts s)); cbn [fst snd length plan_weight]; repeat split; lia.
+  - (* CExecute *) destruct (find_stmt id (stmts s)); cbn [fst snd length plan_weight stmts set_stmts inq]; [|repeat split; lia].
+    pose proof (sw_put_le id (mk_stmt None 0) (stmts s)) as Hp. cbn [w1 st_cursor] in Hp. repeat split; lia.
   - (* CFetch *) destruct (find_stmt id (stmts s)) as [v|] eqn:Ef; cbn [fst snd length plan_weight]; try (repeat split; lia).
     destruct (st_cursor v) as [items|] eqn:Ec; cbn [fst snd length plan_weight]; try (repeat split; lia).
     pose proof (fetch_plan_len (S (length items)) id items (st_inner v) 0%N n (st_inner v)) as [L Wt].
